@@ -277,12 +277,12 @@ FALSE_SV = C(False)
 
 class ComparatorCacheWrite(CacheWriteMixin, ComparatorEval):
     trusted = tuple(getattr(ComparatorEval, 'trusted', ())) + CacheWriteMixin.trusted_keys
-    props = ('C05', 'C01', 'C02', 'C04', 'C18')
+    props = ('C05', 'C01', 'C02', 'C04', 'C18', 'C16')
 
 
 class ANDCacheWrite(CacheWriteMixin, ANDEval):
     trusted = tuple(getattr(ANDEval, 'trusted', ())) + CacheWriteMixin.trusted_keys
-    props = ('C05', 'C01', 'C02', 'C03', 'C04', 'C18')
+    props = ('C05', 'C01', 'C02', 'C03', 'C04', 'C18', 'C16')
 
 
 class ElseIfCacheWrite(CacheWriteMixin, ElseIfEval):
@@ -290,7 +290,7 @@ class ElseIfCacheWrite(CacheWriteMixin, ElseIfEval):
     so a right operand that selects conclusions (an Alternative / Next under the else-if of a rule tree) is evaluated and
     never looked up in / replayed from right_cache."""
     trusted = tuple(getattr(ElseIfEval, 'trusted', ())) + CacheWriteMixin.trusted_keys
-    props = ('C05', 'C01', 'C02', 'C03', 'C04', 'C18', 'C12')
+    props = ('C05', 'C01', 'C02', 'C03', 'C04', 'C18', 'C12', 'C16')
 
     def obj_cache_check(self, eng, st, recv, args, kwargs, node):
         n = st.ghost['self']
